@@ -737,9 +737,9 @@ func verifParseTar(b []byte) ([]verifTarMember, error) {
 type verifFaultReader struct {
 	data   []byte
 	pos    int
-	chunk  int   // max bytes per Read (0 = unlimited)
-	failAt int   // offset at which an error is returned (-1 = never)
-	eofAt  int   // offset at which EOF is returned early (-1 = never)
+	chunk  int    // max bytes per Read (0 = unlimited)
+	failAt int    // offset at which an error is returned (-1 = never)
+	eofAt  int    // offset at which EOF is returned early (-1 = never)
 	fired  string // which fault fired
 }
 
@@ -776,4 +776,3 @@ func (r *verifFaultReader) Read(p []byte) (int, error) {
 	r.pos += n
 	return n, nil
 }
-
